@@ -305,6 +305,7 @@ func runC18(c *core.Ctx) core.Meta {
 
 	checkIntegerWidths(c, "R18.14", "Page addresses in buffer distribution are not narrowed, nor widened after they could wrap.", 5, []widthScope{{rel: drvIntPkg}}, []string{"narrow", "widen-wrapped"}, widthAllowDrvInt)
 	checkStrideNotClamped(c, "R18.15")
+	checkUploadAfterDistribute(c)
 	return core.Meta{Level: "other",
 		Explanation: "RDMA clauses of C18 decided on SSA of amd/timing/rdma: SEND-DISCIPLINE on all handlers incl. the control port, FIELDS of cloned requests/responses by provenance, the frozen 4-row wiring table (output port ↔ input port ↔ transaction table ↔ address mapper) checked on each Send's provenance, reply matching on forwarded IDs, drain acknowledgement guarded by both tables empty and by isDraining, pause gate on requests from inside.",
 		NotDecided:  "equality of final data across GPU counts and buffer distributions (value level); work-group distribution arithmetic of the driver; address-mapper contents",
